@@ -2,6 +2,20 @@
 import json
 from pathlib import Path
 V = Path(__file__).resolve().parents[2]
+
+
+def verdict_of(m):
+    first = m.get("round2_first_contact") or m.get("round3_first_contact")
+    v = m.get("verdict") or m.get("expected") or ""
+    if first:
+        v = (v + "; " if v else "") + f"first contact: {first}"
+    if m.get("final"):
+        v += f"; now: {m['final']}"
+        if m.get("final_first_input"):
+            v += " — " + m["final_first_input"].replace("first failing input: ", "")[:120]
+    return v
+
+
 rows = []
 for d in sorted((V / "seeded").iterdir()):
     mf = d / "meta.json"
@@ -9,7 +23,7 @@ for d in sorted((V / "seeded").iterdir()):
         continue
     m = json.loads(mf.read_text())
     rows.append((d.name, m.get("property", ""), (m.get("summary") or "").replace("\n", " ").replace("|", "\\|")[:220],
-                 (m.get("needs") or "").replace("\n", " ").replace("|", "\\|")[:200], (m.get("verdict") or m.get("expected") or "").replace("|", "\\|")))
+                 (m.get("needs") or "").replace("\n", " ").replace("|", "\\|")[:200], verdict_of(m).replace("|", "\\|")))
 out = ["# Seeded changes and which check catches them", "",
        "Each change was written by a fresh sub-agent that saw only the property text and its own scratch worktree of /repo;",
        "each is kept as `seeded/<id>/{patch.diff, demo.py, meta.json}` and was re-run by the lead with `seeded/run_seeded.sh`",
